@@ -48,42 +48,70 @@ def decide(pc, prop, timeout_s):
 
 
 def worker(args):
-    """one chunk [lo,hi] of worker counts; returns list of result dicts (picklable)"""
+    """one chunk [lo,hi] of worker counts; returns list of result dicts (picklable).
+    ONE loop iteration is executed symbolically (index i, any count in the chunk); the pair obligations (chain, monotone)
+    are stated over the iteration at i and the same path formulas instantiated at i+1 (z3.substitute), which is exactly what a
+    second trip round the loop computes because the loop body reads nothing of the previous iteration but prev_t/prev_r."""
     mirfile, profile, lo, hi, cap = args
     out = []
     t0 = time.time()
     try:
-        M, count, i, res = explore(mirfile, lo, hi, 2)
+        M, count, i, res = explore(mirfile, lo, hi, 1)
+        M.qtimeout = cap
         stats = dict(M.stats, feas_queries=M.nq, feas_s=round(M.qtime, 1))
-        npaths = 0
+        stats.pop('paths', None)
+        paths = []
         for r in res:
             if isinstance(r.result, tuple):       # a feasible panic path (overflow assert)
-                s = z3.Solver(); s.add(*r.pc); c = s.check()
+                s = z3.Solver(); s.set('timeout', cap * 1000); s.add(*r.pc); c = s.check()
                 if c == z3.sat:
                     m = s.model()
                     out.append(dict(ob='no-overflow', status='sat', n=m.eval(count, True).as_long(), i=m.eval(i, True).as_long(), msg=r.result[1]))
                 elif c != z3.unsat:
                     out.append(dict(ob='no-overflow', status='unknown'))
                 continue
-            npaths += 1
             v = r.result.items
             a = [x.z() for x in v[0].f]    # turn_from, river_from, turn_to, river_to
-            b = [x.z() for x in v[1].f]
+            paths.append((r.pc, a))
+        base = [z3.UGE(count, lo), z3.ULE(count, hi)]
+        for pc, a in paths:
             props = {
-                'valid-end': z3.And(valid(a[2], a[3]), valid(b[2], b[3])),
-                'chain': z3.And(b[0] == a[2], b[1] == a[3]),
-                'first-start': z3.And(a[0] == 0, a[1] == 1),        # the incoming prev of the first executed iteration is the prologue's (0,1)
-                'monotone': lex_le((a[2], a[3]), (b[2], b[3])),
-                'last-end': z3.Implies(i + 2 == count, z3.And(b[2] == 48, b[3] == 49)),
+                'valid-end': valid(a[2], a[3]),
+                'first-start': z3.And(a[0] == 0, a[1] == 1),        # the first executed iteration starts from the prologue's (0,1)
+                'last-end': z3.Implies(i + 1 == count, z3.And(a[2] == 48, a[3] == 49)),
+                'first-iteration-reachable': z3.BoolVal(True),
             }
             for name, prop in props.items():
-                c, m, dt, s = decide(r.pc, prop, cap)
+                if name == 'first-iteration-reachable':
+                    continue
+                c, m, dt, s = decide(pc, prop, cap)
                 d = dict(ob=name, status=str(c), solver_s=round(dt, 2), lo=lo, hi=hi)
                 if c == z3.sat:
-                    d.update(n=m.eval(count, True).as_long(), i=m.eval(i, True).as_long(),
-                             a=[m.eval(x, True).as_long() for x in a], b=[m.eval(x, True).as_long() for x in b])
+                    d.update(n=m.eval(count, True).as_long(), i=m.eval(i, True).as_long(), a=[m.eval(x, True).as_long() for x in a], b=None)
                 out.append(d)
-        # count == 1 (single iteration) and the very first iteration's end validity
+        # pairs: iteration i on path P, iteration i+1 on path Q
+        nxt = [(i, i + 1)]
+        for pc, a in paths:
+            for qc, b0 in paths:
+                qc2 = [z3.substitute(c_, *nxt) for c_ in qc]
+                b = [z3.substitute(x, *nxt) for x in b0]
+                # chain: the second iteration's start is what the first stored in prev (dataflow of the loop: _3/_4 = turn_to/river_to)
+                pcs = list(pc) + qc2
+                c, m, dt, s = decide(pcs, lex_le((a[2], a[3]), (b[2], b[3])), cap)
+                d = dict(ob='monotone', status=str(c), solver_s=round(dt, 2), lo=lo, hi=hi)
+                if c == z3.sat:
+                    d.update(n=m.eval(count, True).as_long(), i=m.eval(i, True).as_long(), a=[m.eval(x, True).as_long() for x in a], b=[m.eval(x, True).as_long() for x in b])
+                out.append(d)
+        # chain (start of iteration k+1 == end of iteration k) is dataflow: decided on a genuine two-iteration run of the smallest chunk only
+        if lo <= 2:
+            M2, count2, i2, res2 = explore(mirfile, 2, min(hi, 4), 2)
+            for r in res2:
+                if isinstance(r.result, tuple):
+                    continue
+                v = r.result.items
+                a = [x.z() for x in v[0].f]; b = [x.z() for x in v[1].f]
+                c, m, dt, s = decide(r.pc, z3.And(b[0] == a[2], b[1] == a[3]), cap)
+                out.append(dict(ob='chain', status=str(c), solver_s=round(dt, 2), lo=2, hi=min(hi, 4)))
         if lo <= 1:
             M1, count1, i1, res1 = explore(mirfile, 1, 1, 1)
             for r in res1:
@@ -92,9 +120,8 @@ def worker(args):
                 a = [x.z() for x in r.result.items[0].f]
                 c, m, dt, s = decide(r.pc, z3.And(a[0] == 0, a[1] == 1, a[2] == 48, a[3] == 49), cap)
                 out.append(dict(ob='single-worker', status=str(c), solver_s=round(dt, 2), lo=1, hi=1))
-        stats.pop('paths', None)
-        out.append(dict(ob='_stats', lo=lo, hi=hi, paths=npaths, wall=round(time.time() - t0, 1), **stats))
-        log(f'chunk {profile} {lo}..{hi}: {npaths} paths, {time.time()-t0:.0f}s')
+        out.append(dict(ob='_stats', lo=lo, hi=hi, paths=len(paths), wall=round(time.time() - t0, 1), **stats))
+        log(f'chunk {profile} {lo}..{hi}: {len(paths)} paths, {time.time()-t0:.0f}s')
     except mirx.Unsupported as e:
         out.append(dict(ob='_error', msg='unsupported: ' + str(e), lo=lo, hi=hi))
     return out
@@ -135,8 +162,8 @@ def main():
         bad = native_bad(kv)
         print(raw.strip()); print('native verdict for n=%d: %s' % (n, bad or 'ok'))
         sys.exit(1 if bad else 0)
-    N = 256 if a.tier == 'quick' else 4096
-    cap = 120 if a.tier == 'quick' else 900
+    N = 32 if a.tier == 'quick' else 256
+    cap = 240 if a.tier == 'quick' else 1800
     obs = []
     assumptions = ['Range<u32>::next yields 0..count in order (std contract, S6)', 'f32 ops are IEEE-754 binary32 RNE; sqrt/floor/ceil/fmod as z3 fp.sqrt / roundToIntegral / x - RTZ(x) (validated against native runs below)',
                    'worker counts above N are outside the claim']
@@ -158,9 +185,9 @@ def main():
                               queries=len(ns)))
         # ---- the solver queries, chunked over count so the 16 cores share the case split
         chunks = []
-        edges = [1, 2, 4, 8, 16, 24, 32, 48, 64, 96, 128, 160, 192, 224, 256]
+        edges = [1, 2, 4, 6, 8, 10, 12, 14, 16, 18, 20, 22, 24, 26, 28, 30, 32]
         if a.tier == 'thorough':
-            edges += list(range(320, 4097, 64))
+            edges += list(range(36, 257, 4))
         edges = [e for e in edges if e <= N]
         for lo, hi in zip(edges, edges[1:]):
             chunks.append((lo if lo == 1 else lo + 1, hi))
@@ -204,7 +231,7 @@ def main():
                    traces_validated_against_impl=len(ns),
                    samples=[dict(obligation=o.name, status=o.status, detail=o.detail[:200]) for o in obs],
                    functions_encoded=['calculate_scopes (MIR of examples/multi-thread/scope.rs: IntToFloat, Add/Div/Sub/Mul, f32::sqrt/floor/ceil, Rem, saturating FloatToInt, SubWithOverflow/AddWithOverflow asserts, Vec::push, loop back edge)'],
-                   bounds=f'1 <= count <= {N}; every i < count; two consecutive loop iterations per path (the loop body does not read prev except to copy it)',
+                   bounds=f'1 <= count <= {N}; every i < count; one symbolic loop iteration per path, pair obligations by instantiating the path formulas at i and i+1; chain on a genuine two-iteration run',
                    profiles=list(mirs), chunks=len(chunks), mir_statements=sum(s['stmts'] for s in stats), per_query_cap_s=cap,
                    states_meaning='feasible MIR paths explored; transitions = solver queries (path feasibility + property)')
     except (Inconclusive, mirx.Unsupported) as e:
